@@ -40,6 +40,20 @@ pub enum Case {
     Project { c: P2, r: f64, p: P2 },
     Arc3 { p0: P2, p1: P2, p2: P2, collinear: bool, #[serde(default = "one")] scale: f64 },
     ArcBox { c: P2, r: f64, a0: f64, sweep: f64 },
+    /// the inner case with every length multiplied by 2^exp2 (exact, so lattice constructions stay exact)
+    Scaled { exp2: i32, inner: Box<Case> },
+}
+
+/// every length of a case multiplied by u (a power of two)
+fn scale_case(c: &Case, u: f64) -> Option<Case> {
+    let sp = |p: &P2| [p[0] * u, p[1] * u];
+    Some(match c {
+        Case::Pair { kind, k, a, b, f, quarter, shift, pose } => Case::Pair { kind: *kind, k: k * u, a: *a, b: *b, f: *f, quarter: *quarter, shift: *shift, pose: pose.as_ref().map(|p| Iso2D { angle: p.angle, t: sp(&p.t) }) },
+        Case::TangentPoint { c, r, ratio_exp, ang } => Case::TangentPoint { c: sp(c), r: r * u, ratio_exp: *ratio_exp, ang: *ang },
+        Case::Project { c, r, p } => Case::Project { c: sp(c), r: r * u, p: sp(p) },
+        Case::ArcBox { c, r, a0, sweep } => Case::ArcBox { c: sp(c), r: r * u, a0: *a0, sweep: *sweep },
+        _ => return None,
+    })
 }
 
 fn pair_kind() -> BoxedStrategy<PairKind> {
@@ -59,15 +73,29 @@ impl Property for C11 {
     type Case = Case;
     const ID: &'static str = "C11";
     fn rule() -> &'static str {
-        "families: circle pairs parameterised by relative position (far, just outside, exactly externally tangent via 3-4-5 lattice constructions, crossing, exactly internally tangent, nested, concentric, equal radii) posed by exact quarter turns + lattice shifts or a general isometry (centres up to 1e3); external points at d/r = 1 + 10^[-6,3]; lines at any distance incl. exactly tangent (axis-parallel on a lattice, and in a general direction to within a few ulps), unit and non-unit directions, segments; curve x circle; point triples in general position and exactly collinear; arcs with any centre, start angle in +-4pi and sweep in [-2pi, 2pi] incl. +-2pi, multiples of pi/2 and +-1e-9. Oracle: the defining constraints (on both objects, count by configuration, perpendicular radius, documented left/right order, bounding box contains and touches). Non-trivial: neither circle centred at the origin and r/d farther than 0.05 from 1/sqrt 2. Distinct = distinct canonical JSON."
+        "families: circle pairs parameterised by relative position (far, just outside, exactly externally tangent via 3-4-5 lattice constructions, crossing, exactly internally tangent, nested, concentric, equal radii) posed by exact quarter turns + lattice shifts or a general isometry (centres up to 1e3); external points at d/r = 1 + 10^[-6,3]; lines at any distance incl. exactly tangent (axis-parallel on a lattice, and in a general direction to within a few ulps), unit and non-unit directions, segments; curve x circle; point triples in general position and exactly collinear; arcs with any centre, start angle in +-4pi and sweep in [-2pi, 2pi] incl. +-2pi, multiples of pi/2 and +-1e-9. A quarter of the pair / external point / projection / arc-box cases are rescaled as a whole by a power of two between 2^-20 and 2^20 (1e-6 .. 1e6; the library's documented absolute zero of 1e-10 sets the lower end). Oracle: the defining constraints (on both objects, count by configuration, perpendicular radius, documented left/right order, bounding box contains and touches). Non-trivial: neither circle centred at the origin and r/d farther than 0.05 from 1/sqrt 2. Distinct = distinct canonical JSON."
     }
     fn cases(t: Tier) -> u32 {
         t.pick(6_000_000, 50_000_000)
     }
     fn expected_labels() -> Vec<&'static str> {
-        vec!["pair_far", "pair_just_outside", "pair_touch_exact", "pair_crossing", "pair_inner_touch_exact", "pair_nested", "pair_concentric", "tangent_point", "line_0", "line_1", "line_2", "line_tangent_generic", "segment", "curve_circle", "project", "arc3", "arc3_collinear", "arc_box", "outer_tangents"]
+        vec!["pair_far", "pair_just_outside", "pair_touch_exact", "pair_crossing", "pair_inner_touch_exact", "pair_nested", "pair_concentric", "tangent_point", "line_0", "line_1", "line_2", "line_tangent_generic", "segment", "curve_circle", "project", "arc3", "arc3_collinear", "arc_box", "outer_tangents", "unit_below_1", "unit_above_1"]
     }
-    fn strategy(_t: Tier) -> BoxedStrategy<Case> {
+    fn check(case: &Case) -> Verdict {
+        check_case(case)
+    }
+    fn strategy(t: Tier) -> BoxedStrategy<Case> {
+        // a quarter of the cases of the scale-free families in another unit of length: 2^-30 (1e-9) .. 2^20 (1e6)
+        (Self::unscaled(t), prop::option::weighted(0.25, -20i32..=20)).prop_map(|(c, e)| match e {
+            Some(e) if e != 0 && scale_case(&c, 1.0).is_some() => Case::Scaled { exp2: e, inner: Box::new(c) },
+            _ => c,
+        })
+        .boxed()
+    }
+}
+
+impl C11 {
+    fn unscaled(_t: Tier) -> BoxedStrategy<Case> {
         prop_oneof![
             5 => (pair_kind(), prop::sample::select(vec![0.125, 0.25, 0.5, 1.0, 2.0, 8.0]), 1u8..6, 1u8..6, unif(0.02, 0.98), 0u8..4, (-100i32..=100, -100i32..=100), prop::option::of(iso2(1e3)))
                 .prop_map(|(kind, k, a, b, f, quarter, shift, pose)| Case::Pair { kind, k, a, b, f, quarter, shift, pose }),
@@ -81,16 +109,27 @@ impl Property for C11 {
         ]
         .boxed()
     }
-    fn check(case: &Case) -> Verdict {
-        match case {
-            Case::Pair { kind, k, a, b, f, quarter, shift, pose } => pair(*kind, *k, *a, *b, *f, *quarter, *shift, pose),
-            Case::TangentPoint { c, r, ratio_exp, ang } => tangent_point(c, *r, *ratio_exp, *ang),
-            Case::Line { c, r, dist_rel, dir_ang, dir_len, along, seg, exact_tangent, tangent_at } => line(c, *r, *dist_rel, *dir_ang, *dir_len, *along, *seg, *exact_tangent, *tangent_at),
-            Case::CurveCircle { spec, c, r } => curve_circle(spec, c, *r),
-            Case::Project { c, r, p } => project(c, *r, p),
-            Case::Arc3 { p0, p1, p2, collinear, scale } => arc3(p0, p1, p2, *collinear, *scale),
-            Case::ArcBox { c, r, a0, sweep } => arc_box(c, *r, *a0, *sweep),
-        }
+}
+
+fn check_case(case: &Case) -> Verdict {
+    match case {
+        Case::Pair { kind, k, a, b, f, quarter, shift, pose } => pair(*kind, *k, *a, *b, *f, *quarter, *shift, pose),
+        Case::TangentPoint { c, r, ratio_exp, ang } => tangent_point(c, *r, *ratio_exp, *ang),
+        Case::Line { c, r, dist_rel, dir_ang, dir_len, along, seg, exact_tangent, tangent_at } => line(c, *r, *dist_rel, *dir_ang, *dir_len, *along, *seg, *exact_tangent, *tangent_at),
+        Case::CurveCircle { spec, c, r } => curve_circle(spec, c, *r),
+        Case::Project { c, r, p } => project(c, *r, p),
+        Case::Arc3 { p0, p1, p2, collinear, scale } => arc3(p0, p1, p2, *collinear, *scale),
+        Case::ArcBox { c, r, a0, sweep } => arc_box(c, *r, *a0, *sweep),
+        Case::Scaled { exp2, inner } => match scale_case(inner, 2f64.powi(*exp2)) {
+            Some(c) => match check_case(&c) {
+                Verdict::Pass(mut p) => {
+                    p.labels.push(if *exp2 < 0 { "unit_below_1" } else { "unit_above_1" });
+                    Verdict::Pass(p)
+                }
+                v => v,
+            },
+            None => Verdict::Discard("family is not scaled"),
+        },
     }
 }
 
@@ -153,7 +192,8 @@ fn pair(kind: PairKind, k: f64, a: u8, b: u8, f: f64, quarter: u8, shift: (i32, 
     let (rs, rd) = (r0 + r1, (r0 - r1).abs());
     let scale = r0 + r1 + d + c0.coords.norm().max(c1.coords.norm());
     let tol = 1e-9 * scale;
-    let band = 1e-9 * scale;
+    // the library's own documented zero is 1e-10 (absolute): configurations within a few of those of a boundary are left open
+    let band = (1e-9 * scale).max(4e-10);
     let ca = Circle2::from_point(c0, r0);
     let cb = Circle2::from_point(c1, r1);
     cx.label(match kind {
